@@ -47,6 +47,8 @@ enum Op {
     CreateBucket(String),
     DeleteBucket(String),
     Put(String, String, Arc<Vec<u8>>, Meta),
+    /// PutObject that declares (correct) CRC32 and SHA-256 checksums of its content: the backend stores them with the object
+    PutChecked(String, String, Arc<Vec<u8>>),
     Delete(String, String),
     DeleteObjects(String, Vec<String>),
     Copy(String, String, String, String),
@@ -69,6 +71,7 @@ impl Op {
             Op::CreateBucket(b) => format!("CreateBucket({b})"),
             Op::DeleteBucket(b) => format!("DeleteBucket({b})"),
             Op::Put(b, k, c, m) => format!("Put({b}/{k},{}B,{})", c.len(), if m.is_some() { "meta" } else { "no-meta" }),
+            Op::PutChecked(b, k, c) => format!("PutWithChecksums({b}/{k},{}B:{})", c.len(), String::from_utf8_lossy(&c[..c.len().min(5)])),
             Op::Delete(b, k) => format!("Delete({b}/{k})"),
             Op::DeleteObjects(b, ks) => format!("DeleteObjects({b},{ks:?})"),
             Op::Copy(sb, sk, db, dk) => format!("Copy({sb}/{sk}->{db}/{dk})"),
@@ -98,6 +101,8 @@ struct Universe {
     mp_only: bool,
     /// the part lists a completion may name (empty: [1] and, with two parts, [1, 2])
     complete_lists: Vec<Vec<i32>>,
+    /// puts declare checksums (which the backend stores and returns with every read)
+    checked_puts: bool,
     /// not searched breadth-first: this one history is executed (its labels), the read set after every step
     directed: Option<Vec<Op>>,
 }
@@ -140,9 +145,10 @@ fn universes(tier: Tier) -> Vec<Universe> {
             max_parts: 0,
             mp_only: false,
             complete_lists: vec![],
+            checked_puts: false,
             directed: None,
-        }, mp_universe(tier), eleven_parts()],
-        Tier::Thorough => vec![universe(tier), mp_universe(tier), eleven_parts()],
+        }, mp_universe(tier), eleven_parts(), checksum_universe()],
+        Tier::Thorough => vec![universe(tier), mp_universe(tier), eleven_parts(), checksum_universe()],
     }
 }
 
@@ -163,6 +169,7 @@ fn universe(tier: Tier) -> Universe {
             max_parts: 1,
             mp_only: false,
             complete_lists: vec![],
+            checked_puts: false,
             directed: None,
         },
         Tier::Thorough => Universe {
@@ -177,6 +184,7 @@ fn universe(tier: Tier) -> Universe {
             max_parts: 2,
             mp_only: false,
             complete_lists: vec![],
+            checked_puts: false,
             directed: None,
         },
     }
@@ -198,6 +206,28 @@ fn mp_universe(tier: Tier) -> Universe {
         max_parts: 3,
         mp_only: true,
         complete_lists: vec![vec![1], vec![1, 2], vec![1, 2, 3], vec![2, 1]],
+        checked_puts: false,
+        directed: None,
+    }
+}
+
+/// Checksums travel with the content: every put declares CRC32 and SHA-256 of its content, the backend stores them and
+/// returns them with every read. Two contents of the same length, two keys, copies and one multipart completion onto a key:
+/// whatever checksum a read returns is the checksum of the most recently written content.
+fn checksum_universe() -> Universe {
+    Universe {
+        name: "checksums",
+        buckets: vec!["bkt-one".into()],
+        keys: vec!["k1 +%é~".into(), "d/k2".into()],
+        other_keys: 1,
+        contents: vec![Arc::new(b"abcde".to_vec()), Arc::new(b"vwxyz".to_vec())],
+        metas: vec![None],
+        part_contents: vec![Arc::new(b"PQ".to_vec())],
+        max_uploads_ever: 1,
+        max_parts: 1,
+        mp_only: false,
+        complete_lists: vec![],
+        checked_puts: true,
         directed: None,
     }
 }
@@ -222,6 +252,7 @@ fn eleven_parts() -> Universe {
         max_parts: 11,
         mp_only: true,
         complete_lists: vec![(1..=11).collect()],
+        checked_puts: false,
         directed: Some(ops),
     }
 }
@@ -258,6 +289,10 @@ fn ops_for(u: &Universe, m: &Model) -> Vec<Op> {
         v.push(Op::DeleteBucket(b.clone()));
         for k in u.keys_of(b) {
             for c in &u.contents {
+                if u.checked_puts {
+                    v.push(Op::PutChecked(b.clone(), k.clone(), c.clone()));
+                    continue;
+                }
                 for me in &u.metas {
                     v.push(Op::Put(b.clone(), k.clone(), c.clone(), me.clone()));
                 }
@@ -274,15 +309,16 @@ fn ops_for(u: &Universe, m: &Model) -> Vec<Op> {
         v.push(Op::DeleteObjects(b.clone(), u.keys_of(b).to_vec()));
         v.push(Op::DeleteObjects(b.clone(), vec![u.keys[0].clone()]));
         if m.uploads_created < u.max_uploads_ever {
-            for owner in ["alice", "bob"] {
+            for owner in if u.checked_puts { &["alice"][..] } else { &["alice", "bob"][..] } {
                 for me in &u.metas {
-                    v.push(Op::CreateMpu(b.clone(), u.keys[0].clone(), owner.to_owned(), me.clone()));
+                    v.push(Op::CreateMpu(b.clone(), u.keys[0].clone(), (*owner).to_owned(), me.clone()));
                 }
             }
         }
     }
     for (ui, up) in m.uploads.iter().enumerate() {
-        for by in ["alice", "bob"] {
+        for by in if u.checked_puts { &["alice"][..] } else { &["alice", "bob"][..] } {
+            let by = *by;
             for n in 1..=u.max_parts {
                 for c in &u.part_contents {
                     v.push(Op::UploadPart(ui, n, c.clone(), by.to_owned()));
@@ -354,6 +390,24 @@ fn apply(fs: &FileSystem, m: &mut Model, op: &Op) -> Vec<Bad> {
                         push("put-into-absent-bucket-succeeds", format!("PutObject {b}/{k} succeeded although bucket {b} does not exist (deleted or never created)"));
                         // follow the implementation so that later states stay comparable
                         m.buckets.entry(b.clone()).or_default().insert(k.clone(), Obj { content: c.clone(), meta: me.clone() });
+                    }
+                    (None, Err(_)) => {}
+                }
+            }
+            Op::PutChecked(b, k, c) => {
+                use base64::Engine;
+                use sha2::Digest;
+                let crc = base64::engine::general_purpose::STANDARD.encode(crc32fast::hash(c).to_be_bytes());
+                let sha = base64::engine::general_purpose::STANDARD.encode(sha2::Sha256::digest(c.as_slice()));
+                let r = fs.put_object(req(PutObjectInput { bucket: b.clone(), key: k.clone(), body: Some(blob_of(c, 2)), content_length: Some(c.len() as i64), checksum_crc32: Some(crc), checksum_sha256: Some(sha), ..gb() }, Some("alice"))).await;
+                match (m.buckets.get_mut(b), &r) {
+                    (Some(objs), Ok(_)) => {
+                        objs.insert(k.clone(), Obj { content: c.clone(), meta: None });
+                    }
+                    (Some(_), Err(_)) => push("put-refused", format!("PutObject {b}/{k} with correct checksums into an existing bucket failed: {}", code(&r))),
+                    (None, Ok(_)) => {
+                        push("put-into-absent-bucket-succeeds", format!("PutObject {b}/{k} succeeded although bucket {b} does not exist (deleted or never created)"));
+                        m.buckets.entry(b.clone()).or_default().insert(k.clone(), Obj { content: c.clone(), meta: None });
                     }
                     (None, Err(_)) => {}
                 }
@@ -624,6 +678,23 @@ fn read_set(fs: &FileSystem, m: &Model, u: &Universe, bad: &mut Vec<Bad>) -> u64
                                     if from_meta(&out.output.metadata) != o.meta && !(out.output.metadata.as_ref().is_some_and(|x| x.is_empty()) && o.meta.is_none()) {
                                         push("read-metadata", format!("{what}: user metadata {:?}, most recently written is {:?}", out.output.metadata, o.meta));
                                     }
+                                    // a checksum returned with a read is the checksum of the object read (a client that verifies it
+                                    // would otherwise refuse the most recently written content)
+                                    {
+                                        use base64::Engine;
+                                        use sha2::Digest;
+                                        let e = &base64::engine::general_purpose::STANDARD;
+                                        let pairs: [(&str, &Option<String>, String); 3] = [
+                                            ("CRC32", &out.output.checksum_crc32, e.encode(crc32fast::hash(&o.content).to_be_bytes())),
+                                            ("SHA-1", &out.output.checksum_sha1, e.encode(sha1::Sha1::digest(o.content.as_slice()))),
+                                            ("SHA-256", &out.output.checksum_sha256, e.encode(sha2::Sha256::digest(o.content.as_slice()))),
+                                        ];
+                                        for (name, got, want) in pairs {
+                                            if got.as_ref().is_some_and(|g| *g != want) {
+                                                push("read-checksum-of-another-content", format!("{what}: {name} checksum {got:?} returned with the object; the checksum of the most recently written content is {want}"));
+                                            }
+                                        }
+                                    }
                                     let wante = format!("\"{}\"", md5_hex(&o.content));
                                     if out.output.e_tag.as_deref() != Some(wante.as_str()) {
                                         push("read-etag", format!("{what}: ETag {:?}, MD5 of the content is {wante}", out.output.e_tag));
@@ -788,7 +859,7 @@ pub fn run(ctx: &Ctx) -> (Acc, Report) {
     let mut acc = ctx.acc();
     let us = universes(ctx.tier);
     let scratch = Scratch::new("c18");
-    let wall_cap = std::time::Duration::from_secs(ctx.tier.pick(300, 900));
+    let wall_cap = std::time::Duration::from_secs(ctx.tier.pick(300, 600)); // per universe
     let max_depth = ctx.tier.pick(usize::MAX, usize::MAX);
 
     // replay of one history (a witness): the operation labels are re-executed from the empty store
@@ -850,6 +921,7 @@ pub fn run(ctx: &Ctx) -> (Acc, Report) {
     for (ui, u) in us.iter().enumerate() {
     let states_before = states;
     let transitions_before = transitions;
+    let universe_start = std::time::Instant::now();
     if let Some(ops) = &u.directed {
         // one history on one live tree; the answers and the full read set are judged after every step
         let dir = scratch.path.join(format!("directed{ui}"));
@@ -894,7 +966,7 @@ pub fn run(ctx: &Ctx) -> (Acc, Report) {
 
     // BFS level by level; each level's states are expanded in parallel, results merged in order
     while !frontier.is_empty() {
-        if ctx.start.elapsed() > wall_cap || rss_bytes() > (12u64 << 30) {
+        if universe_start.elapsed() > wall_cap || rss_bytes() > (12u64 << 30) {
             capped = true;
             break;
         }
@@ -1002,7 +1074,7 @@ pub fn run(ctx: &Ctx) -> (Acc, Report) {
     acc.outcome(if capped { "search capped by wall clock" } else { "frontier emptied (fixpoint)" });
     let rep = Report {
         level: "model_checking",
-        rule: format!("explicit-state BFS over (reference model, disk snapshot) with the real s3s_fs::FileSystem as transition function, one search per universe (all listed under coverage.universes; quick: a one-bucket universe with multipart, a two-bucket universe with the same two keys in both buckets, one content, with and without metadata, for every cross-bucket copy, a multipart-order universe - parts 1..3 of one upload, each of the backend's minimum part size plus its number or 2 bytes, uploaded and re-uploaded in every order, completed as [1], [1,2], [1,2,3], [2,1]: the object is the concatenation in part order - and one history of eleven parts uploaded in descending order); first universe: buckets {:?}, keys {:?}, contents of {:?} bytes, metadata {{none, m}}, identities {{alice, bob}}, at most {} multipart upload per history with parts <= {}; transitions: create/delete bucket, put, delete, delete-objects, copy, create/abort/complete multipart, upload-part, upload-part-copy; in every reached state the full read set: GetObject for every key x 10-13 Range forms (none, 0-0, 0-, 1-2, last byte, first = length, last beyond end, suffix 1, suffix 0, suffix > length, 4 KiB buffer edges), HeadObject, ListObjects and ListObjectsV2 x 5 prefixes x 4 start-after values, ListBuckets, ListParts. Distinct states by canonical hash (model + disk with upload UUIDs renamed, mtimes dropped).", u.buckets, u.keys, u.contents.iter().map(|c| c.len()).collect::<Vec<_>>(), u.max_uploads_ever, u.max_parts),
+        rule: format!("explicit-state BFS over (reference model, disk snapshot) with the real s3s_fs::FileSystem as transition function, one search per universe (all listed under coverage.universes; quick: a one-bucket universe with multipart, a two-bucket universe with the same two keys in both buckets, one content, with and without metadata, for every cross-bucket copy, a multipart-order universe - parts 1..3 of one upload, each of the backend's minimum part size plus its number or 2 bytes, uploaded and re-uploaded in every order, completed as [1], [1,2], [1,2,3], [2,1]: the object is the concatenation in part order - one history of eleven parts uploaded in descending order, and a checksum universe - puts that declare CRC32 and SHA-256, two contents of one length, copies and a multipart completion onto the keys: a checksum returned with a read is the checksum of the content read); first universe: buckets {:?}, keys {:?}, contents of {:?} bytes, metadata {{none, m}}, identities {{alice, bob}}, at most {} multipart upload per history with parts <= {}; transitions: create/delete bucket, put, delete, delete-objects, copy, create/abort/complete multipart, upload-part, upload-part-copy; in every reached state the full read set: GetObject for every key x 10-13 Range forms (none, 0-0, 0-, 1-2, last byte, first = length, last beyond end, suffix 1, suffix 0, suffix > length, 4 KiB buffer edges), HeadObject, ListObjects and ListObjectsV2 x 5 prefixes x 4 start-after values, ListBuckets, ListParts. Distinct states by canonical hash (model + disk with upload UUIDs renamed, mtimes dropped).", u.buckets, u.keys, u.contents.iter().map(|c| c.len()).collect::<Vec<_>>(), u.max_uploads_ever, u.max_parts),
         exhaustive: !capped,
         extra: json!({
             "states": states.max(1), "transitions": transitions.max(1), "traces_validated_against_impl": transitions,
